@@ -75,6 +75,22 @@ PROPS = {
             "note": "Trusted: refmodel::round. Negative values use sign-aware modes for every type (the property's plain reading).",
         },
     },
+    "C09": {
+        "builds": ["chk", "rel"],
+        "rule": ("ten-field vectors drawn from {0, +-1, 59, 60, 999, 1000, 2^31+-1, 2^32-2..2^32+1, 2^53-2..2^53+2, per-unit share of the 2^53 s limit +-3, random} incl. mixed signs, "
+                 "plus directed vectors (exactly 2^53 s - 1 ns, exactly 2^53 s spread over sub-second fields, 2^32 - 1 calendar units ...): Duration::new / from_partial_duration accept iff "
+                 "IsValidDuration; negated/abs/sign fieldwise; add/subtract of calendar-free pairs = exact sum balanced to the larger default largest unit (calendar units refused); "
+                 "compare(None) = order of exact totals (+ antisymmetry, reflexivity); round(None) over every (largest, smallest, admissible increment, mode) = exact rounding of the "
+                 "total then balance, and round(-d, mirrored) = -round(d); total(None, unit) faithful to the exact rational. non-trivial = a field at/over a limit, or rounding changed "
+                 "the total; distinct by case fingerprint"),
+        "assumptions": ["refmodel::dur + refmodel::round; total(): the returned double must be one of the two doubles bracketing the exact quotient (faithful rounding); nearest-or-not is only counted",
+                        "day smallest unit with increment > 1 is only used when the largest unit is day as well (the specification's later extra rule for that case is not judged)"],
+        "manifest": {
+            "technique": "runtime monitoring: exact IsValidDuration/total/balance/rounding oracle on observed Duration constructor, add, compare, round and total calls, two builds",
+            "text": "Each observed result of the reference-date-free Duration operations is compared with exact integer/rational arithmetic on the ten fields; validity is decided exactly at the 2^32 and 2^53 s boundaries (directed vectors hit both sides on every run). Generated, not enumerated; holds on the executions produced.",
+            "note": "Trusted: refmodel::dur, refmodel::round, the exact-division helper (unit-tested against f64 division of safe integers).",
+        },
+    },
 }
 
 
